@@ -393,11 +393,107 @@ fn corrupt_oracle(c: &CorruptCase, ctx: &mut Ctx) -> CaseResult {
 	Ok(())
 }
 
+// ---------------------------------------------------------------------------------------------------
+// (d) network graph and scorer
+// ---------------------------------------------------------------------------------------------------
+
+use netsim::ext_c12::aux::*;
+
+#[derive(Clone, Debug, Serialize, Deserialize)]
+struct ScoreCase {
+	spec: WorldSpec,
+	extra_nodes: u8,
+	gossip: Vec<GossipOp>,
+	decay: (u64, u64),
+	ops: Vec<ScoreOp>,
+	queries: Vec<Query>,
+	fee: FeeParams,
+	tail: Vec<ScoreOp>,
+}
+
+fn gossip_strat() -> impl Strategy<Value = GossipOp> {
+	let bytes = |n: usize| proptest::collection::vec(any::<u8>(), 0..n);
+	prop_oneof![
+		6 => (any::<u8>(), any::<u8>(), any::<u32>(), prop_oneof![Just(None), (1_000u64..20_000_000).prop_map(Some)], any::<bool>(), bytes(20)).prop_map(|(a, b, scid, capacity_sat, full, excess)| GossipOp::Announce { a, b, scid, capacity_sat, full, excess }),
+		8 => ((any::<u16>(), any::<bool>(), 0u32..1_000_000, proptest::bool::weighted(0.1), any::<u16>()), (0u64..100_000, prop_oneof![1_000u64..50_000_000_000, Just(u64::MAX)], any::<u32>(), any::<u32>(), bytes(20)))
+			.prop_map(|((chan, dir, ts, disabled, cltv), (min, max, base, ppm, excess))| GossipOp::Update { chan, dir, ts, disabled, cltv, min, max, base, ppm, excess }),
+		3 => (any::<u8>(), 0u32..1_000_000, bytes(33), any::<[u8; 3]>(), proptest::collection::vec((any::<u8>(), any::<[u8; 16]>(), any::<u16>()), 0..5), bytes(20)).prop_map(|(node, ts, alias, rgb, addrs, excess)| GossipOp::NodeAnn { node, ts, alias, rgb, addrs, excess }),
+		1 => any::<u16>().prop_map(|chan| GossipOp::FailChannel { chan }),
+		1 => any::<u8>().prop_map(|node| GossipOp::FailNode { node }),
+		1 => (0u32..3_000_000).prop_map(|now| GossipOp::Stale { now }),
+		1 => any::<u32>().prop_map(GossipOp::RgsTimestamp),
+	]
+}
+
+fn path_strat() -> impl Strategy<Value = PathSpec> {
+	(any::<u16>(), proptest::collection::vec(any::<u16>(), 0..4), prop_oneof![1u64..10_000, 1_000u64..5_000_000_000]).prop_map(|(start, hops, amount_msat)| PathSpec { start, hops, amount_msat })
+}
+
+fn score_op_strat() -> impl Strategy<Value = ScoreOp> {
+	let dt = || prop_oneof![Just(0u32), 0u32..600, 0u32..100_000, 0u32..3_000_000];
+	prop_oneof![
+		5 => (path_strat(), any::<u8>(), dt()).prop_map(|(path, at, dt)| ScoreOp::Failed { path, at, dt }),
+		5 => (path_strat(), dt()).prop_map(|(path, dt)| ScoreOp::Success { path, dt }),
+		1 => (path_strat(), any::<u8>(), dt()).prop_map(|(path, at, dt)| ScoreOp::ProbeFailed { path, at, dt }),
+		1 => (path_strat(), dt()).prop_map(|(path, dt)| ScoreOp::ProbeSuccess { path, dt }),
+		2 => dt().prop_map(|dt| ScoreOp::TimePassed { dt }),
+	]
+}
+
+fn score_strat() -> impl Strategy<Value = ScoreCase> {
+	let fee = (
+		(0u64..2_000, 0u64..300_000, 0u64..100_000, 0u64..1_000_000, 0u64..100_000, 0u64..1_000_000),
+		(0u64..1_000, prop_oneof![Just(1_0000_0000_000u64), 0u64..u64::MAX], any::<bool>(), prop_oneof![Just(0u64), 0u64..1_000_000]),
+	)
+		.prop_map(|((base, base_amt_mult, liq_mult, liq_amt_mult, hist_mult, hist_amt_mult), (anti_probing, impossible, linear, probing_diversity))| FeeParams { base, base_amt_mult, liq_mult, liq_amt_mult, hist_mult, hist_amt_mult, anti_probing, impossible, linear, probing_diversity });
+	(
+		world_spec(vec![Topology::Pair, Topology::Line3]),
+		0u8..7,
+		proptest::collection::vec(gossip_strat(), 0..40),
+		(prop_oneof![Just(14 * 24 * 3600u64), 1u64..10_000_000], prop_oneof![Just(6 * 3600u64), 1u64..1_000_000]),
+		proptest::collection::vec(score_op_strat(), 1..40),
+		proptest::collection::vec((any::<u16>(), any::<bool>(), prop_oneof![0u64..100_000, 0u64..20_000_000_000], prop_oneof![Just(0u64), 0u64..5_000_000_000]).prop_map(|(chan, dir, amount_msat, inflight_msat)| Query { chan, dir, amount_msat, inflight_msat }), 4..24),
+		fee,
+		proptest::collection::vec(score_op_strat(), 0..4),
+	)
+		.prop_map(|(spec, extra_nodes, gossip, decay, ops, queries, fee, tail)| ScoreCase { spec, extra_nodes, gossip, decay, ops, queries, fee, tail })
+}
+
+fn score_oracle(c: &ScoreCase, ctx: &mut Ctx) -> CaseResult {
+	let sim = c.spec.build(false);
+	let nd = &sim.w.nodes[0];
+	let g: &'static Graph = nd.network_graph;
+	let mut m = GraphModel { nodes: (0..sim.w.n).map(|i| sim.w.node_id(i)).collect(), chans: vec![], applied: 0, rejected: 0 };
+	for k in 0..c.extra_nodes {
+		m.nodes.push(node_key(k + 1));
+	}
+	// the world's own channels with their real ids, keys, capacities and forwarding policies
+	world_channels_into_graph(&sim, g, &mut m);
+	for op in c.gossip.iter() {
+		apply_gossip(g, &mut m, op);
+	}
+	graph_oracle(g, nd.logger)?;
+	let res = scorer_oracle(g, nd.logger, &m, c.decay, &c.ops, &c.queries, &c.fee, &c.tail)?;
+	let ro = g.read_only();
+	ctx.label_if(res.entries > 0, "scorer:has-entries");
+	ctx.label_if(res.entries > 1, "scorer:several-entries");
+	ctx.label_if(res.nonempty_buckets, "scorer:non-empty-historical-buckets");
+	ctx.label_if(res.nonzero_penalties > 0, "scorer:non-zero-penalties");
+	ctx.label_if(ro.channels().len() > sim.chans.len(), "graph:generated-channels");
+	ctx.label_if(ro.nodes().unordered_iter().any(|(_, n)| n.announcement_info.is_some()), "graph:node-announcements");
+	ctx.label_if(g.get_last_rapid_gossip_sync_timestamp().is_some(), "graph:rgs-timestamp");
+	ctx.sub_evaluations(res.queries);
+	ctx.nontrivial_if(res.nonempty_buckets);
+	ctx.summary(json!({"channels": ro.channels().len(), "nodes": ro.nodes().len(), "gossip_applied": m.applied, "gossip_rejected": m.rejected, "scorer_entries": res.entries, "queries": res.queries}));
+	Ok(())
+}
+
 fn main() {
 	install_recording_signer();
 	let mut c = Check::new("C12", "exploration");
 	c.part_with(PartSpec { name: "monitors", rule: "wip", quick_cases: 400, thorough_cases: 20_000, max_shrink: 300 }, || strat(70), monitors_oracle);
 	c.part_with(PartSpec { name: "manager-twin", rule: "wip", quick_cases: 300, thorough_cases: 10_000, max_shrink: 300 }, twin_strat, twin_oracle);
 	c.part_with(PartSpec { name: "corruptions", rule: "wip", quick_cases: 150, thorough_cases: 5_000, max_shrink: 200 }, corrupt_strat, corrupt_oracle);
+	c.part_with(PartSpec { name: "graph-scorer", rule: "wip", quick_cases: 600, thorough_cases: 20_000, max_shrink: 1000 }, score_strat, score_oracle);
 	c.finish();
 }
